@@ -290,6 +290,19 @@ fn one_history(o: &mut Outcome, rt: &tokio::runtime::Runtime, rng: &mut Rng, len
             } else {
                 g.refresh(rng, &wanted)
             }
+        } else if rng.chance(1, 6) {
+            // a batch: 2-4 tablets (often of one table, often overlapping: ranges are drawn from the remembered bounds)
+            let (k0, t0) = g.weighted_table(rng);
+            let mut items = Vec::new();
+            for _ in 0..rng.usize(2, 4) {
+                let (k, t) = if rng.chance(3, 4) { (k0.clone(), t0.clone()) } else { g.weighted_table(rng) };
+                let (first, last) = g.range(rng);
+                g.remember(rng, first);
+                g.remember(rng, last);
+                items.push((k, t, first, last, g.replicas(rng)));
+            }
+            o.class("batch:several-tablets-in-one-update");
+            Op::Batch { items }
         } else {
             let (k, t) = g.weighted_table(rng);
             let (first, last) = g.range(rng);
